@@ -238,6 +238,8 @@ def read_all_candles(ctx):
     for sym, tf in ctx.readable:
         try:
             out[f'{sym}|{tf}'] = np.array(store.candles.get_candles(CUR_EX[0], sym, tf), dtype=float).tolist()
+        except Watchdog:
+            raise  # the harness' own wall-clock stop is not a failed read
         except Exception as e:  # noqa
             out[f'{sym}|{tf}'] = {'error': f'{type(e).__name__}: {e}'}
     return out
@@ -295,6 +297,8 @@ def make_strategy(symbol, script, real_ctx):
             if ctx.obs != 'off':
                 try:
                     ev['price'] = float(self.price)
+                except Watchdog:
+                    raise
                 except Exception as e:  # noqa
                     ev['price'] = f'error:{type(e).__name__}'
                 ev.update(pos_qty=float(p.qty), pos_entry=None if p.entry_price is None else float(p.entry_price),
@@ -311,6 +315,8 @@ def make_strategy(symbol, script, real_ctx):
                 try:
                     ev['self_candles'] = np.array(self.candles, dtype=float).tolist()
                     ev['current_candle'] = np.array(self.current_candle, dtype=float).tolist()
+                except Watchdog:
+                    raise  # the harness' own wall-clock stop is not a failed read
                 except Exception as e:  # noqa
                     ev['self_candles'] = {'error': f'{type(e).__name__}: {e}'}
             ctx.trace.append(ev)
@@ -410,6 +416,8 @@ def make_strategy(symbol, script, real_ctx):
                         _ = self.average_stop_loss
                     if 'tp' in ex:
                         _ = self.average_take_profit
+                except Watchdog:
+                    raise
                 except Exception:  # noqa
                     pass
 
